@@ -245,24 +245,36 @@ func runForward(c *rig.Ctx, w *world, cs Case, record bool) bool {
 		return runTerm(c, w, t, record)
 	}
 	id := nextID()
+	o := w.roundTrip(cs, id, &script{up: cs.Up})
+	if o.Err != "" {
+		// one retry on a fresh connection: a refused dial must not become a verdict
+		id = nextID()
+		o = w.roundTrip(cs, id, &script{up: cs.Up})
+	}
+	return judgeForward(c, w, cs, id, o, record, "")
+}
+
+// lastFailure is the failure the last judgeForward ended with (recorded or not): the concurrent stream files it under its
+// own, whole case.
+var lastFailure *rig.Failure
+
+// judgeForward judges (C04.judge on the real observations) and compares (C04.forward) ONE forwarded round trip that was
+// observed under case id `id`; the model is per request, so it is the same judgement whether the round trip ran alone or
+// next to others. where: a note on the circumstances ("" = alone).
+func judgeForward(c *rig.Ctx, w *world, cs Case, id string, o Obs, record bool, where string) bool {
+	lastFailure = nil
 	args := w.modelArgs(cs, id)
 	var m forwardModel
 	if err := c.Model("C04.forward", args, &m); err != nil {
 		rec(c, rig.Failure{Kind: "diff", Class: "c04.model-error", What: err.Error(), Case: cs})
 		return false
 	}
-	o := w.roundTrip(cs, id, &script{up: cs.Up})
-	if o.Err != "" {
-		// one retry on a fresh connection: a refused dial must not become a verdict
-		id = nextID()
-		args = w.modelArgs(cs, id)
-		_ = c.Model("C04.forward", args, &m)
-		o = w.roundTrip(cs, id, &script{up: cs.Up})
-	}
 	fail := func(kind, class, what string) bool {
 		lastClass = class
+		f := rig.Failure{Kind: kind, Class: class, What: where + what + " [" + describe(cs) + "]", Case: cs, Impl: o, Model: m}
+		lastFailure = &f
 		if record {
-			rec(c, rig.Failure{Kind: kind, Class: class, What: what + " [" + describe(cs) + "]", Case: cs, Impl: o, Model: m})
+			rec(c, f)
 		}
 		return false
 	}
@@ -336,7 +348,14 @@ func describe(cs Case) string {
 	for _, h := range cs.Up.Headers {
 		us = append(us, h.name()+": "+h.value())
 	}
-	return fmt.Sprintf("%s %q Host=%s headers=%q body=%d/%v row=%s -> upstream %d headers=%q body=%d", rig.UnHex(cs.Req.Method), rig.UnHex(cs.Req.Target),
+	proto := "HTTP/1.1"
+	if cs.Req.Proto == "h2" {
+		proto = "HTTP/2"
+		if cs.Req.Streamed {
+			proto += " (body of undeclared length)"
+		}
+	}
+	return fmt.Sprintf("%s %s %q Host=%s headers=%q body=%d/%v row=%s -> upstream %d headers=%q body=%d", proto, rig.UnHex(cs.Req.Method), rig.UnHex(cs.Req.Target),
 		rig.UnHex(cs.Req.Host), hs, cs.Req.BodyLen, cs.Req.HasBody, cs.Row, cs.Up.Status, us, cs.Up.BodyLen)
 }
 
@@ -784,6 +803,8 @@ func runAny(c *rig.Ctx, w *world, raw json.RawMessage, record bool) bool {
 		return runURL(c, rig.UnHex(k.Target), record)
 	case "gateway": // the composed model against the real chain (compose.go)
 		return runGatewayAny(c, theGwPool(), raw, record)
+	case "concurrent": // overlapping forwarded round trips, each judged on its own (concurrent.go)
+		return runConcurrentAny(c, w, raw, record)
 	}
 	var cs Case
 	if err := json.Unmarshal(raw, &cs); err != nil {
@@ -885,6 +906,15 @@ func main() {
 		nFwd := c.Budget(1800, 50000)
 		for i := 0; i < nFwd && c.NFailures() < 8; i++ {
 			cs, cl := genForward(r)
+			if i%5 == 4 {
+				if toH2(r, &cs) { // an HTTP/2 client; bodies of undeclared length next to declared ones
+					cl.bucket += ":proto=h2"
+					c.Count("fwd.proto=h2")
+					if cs.Req.Streamed {
+						c.Count("fwd.h2-body-undeclared")
+					}
+				}
+			}
 			c.Case(rig.Canon(cs), cl.nontrivial, coarse(cl.bucket), func() interface{} { return describe(cs) })
 			for _, dim := range strings.Split(cl.bucket, ":")[1:] {
 				if !strings.HasPrefix(dim, "path=") && !strings.HasPrefix(dim, "h=") {
@@ -954,6 +984,10 @@ func main() {
 				runUpgrade(c, w, up, true)
 			}
 			c.Note("upgrade (SPDY/WebSocket) tunnels: one exercised round trip, nothing proved (partial)")
+		}
+		// 4b. concurrent clients (HTTP/1.1 and HTTP/2), every round trip judged like a sequential one (concurrent.go)
+		if c.NFailures() < 8 {
+			runConcurrentStream(c, w)
 		}
 		// 5. whole configurations and request sequences against the composed model (compose.go)
 		if c.NFailures() < 8 {
